@@ -50,7 +50,7 @@ def run_tlc(module, cfg, env=None, workers=1, extra=(), timeout=900, jvm=(), cwd
 
 STATS_RE = re.compile(r"(\d+) states generated, (\d+) distinct states found")
 VERDICT_RE = re.compile(r'<<"(ACCEPT|REJECT)", (\d+), (\d+), (\d+)(?:, (0|".*"))?>>')
-COV_RE = re.compile(r"^<(\w+) line (\d+), col \d+ to line \d+, col \d+ of module (\w+)>: (\d+):(\d+)", re.M)
+COV_RE = re.compile(r"^<(\w+) line (\d+), col \d+ to line \d+, col \d+ of module (\w+)(?: \(\d+ \d+ \d+ \d+\))?>: (\d+):(\d+)", re.M)
 
 
 def parse_stats(out):
